@@ -23,10 +23,10 @@ pub fn get() -> FunctionDefinitions {
                                 } else {
                                     let mut new_map = IndexMap::with_capacity(size);
                                     for (k, v) in map {
-                                        new_map.insert(k, v);
                                         if new_map.len() == size {
                                             break;
                                         }
+                                        new_map.insert(k, v);
                                     }
                                     new_map
                                 };
@@ -38,10 +38,10 @@ pub fn get() -> FunctionDefinitions {
                                 } else {
                                     let mut new_vec = Vec::with_capacity(size);
                                     for i in vec {
-                                        new_vec.push(i);
                                         if new_vec.len() == size {
                                             break;
                                         }
+                                        new_vec.push(i);
                                     }
                                     new_vec
                                 };
